@@ -17,3 +17,7 @@ open Neutrino.PushTx
 #print axioms C15_closed_subscription_harmless
 #print axioms C15_source_shape
 #print axioms C15_parse_table
+#print axioms C15_interval_source
+#print axioms C15_ticks_keep_coming
+#print axioms C15_ticks_keep_coming_general
+#print axioms C15_ticks_keep_coming_counterexample
